@@ -200,6 +200,10 @@ pub struct Shared<C: ChipModel> {
     pub fault_hit: Option<usize>,
     /// first MOSI byte of the last SPI transaction (delivered or lost) — for fault classification
     pub last_cmd: u8,
+    /// first bytes of the last SPI transaction, and of the one the fault hit (SPI: the lost
+    /// transaction; BUSY: the command that had just been delivered)
+    pub last_mosi: Vec<u8>,
+    pub fault_mosi: Vec<u8>,
     pub resets: u32,
     pub delays_ns: u64,
 }
@@ -207,7 +211,7 @@ pub struct Shared<C: ChipModel> {
 pub type Bus<C> = Rc<RefCell<Shared<C>>>;
 
 pub fn new_bus<C: ChipModel>(chip: C) -> Bus<C> {
-    Rc::new(RefCell::new(Shared { chip, fault: None, n_spi: 0, n_busy: 0, n_irq: 0, fault_hit: None, last_cmd: 0, resets: 0, delays_ns: 0 }))
+    Rc::new(RefCell::new(Shared { chip, fault: None, n_spi: 0, n_busy: 0, n_irq: 0, fault_hit: None, last_cmd: 0, last_mosi: vec![], fault_mosi: vec![], resets: 0, delays_ns: 0 }))
 }
 
 impl<C: ChipModel> Shared<C> {
@@ -223,6 +227,7 @@ impl<C: ChipModel> Shared<C> {
         match self.fault {
             Some(f) if f.kind == kind && f.at == n && self.fault_hit.is_none() => {
                 self.fault_hit = Some(self.chip.transcript().len());
+                self.fault_mosi = self.last_mosi.clone();
                 true
             }
             _ => false,
@@ -269,6 +274,7 @@ impl<C: ChipModel> SpiDevice<u8> for SpiDev<C> {
         let mut sh = self.0.borrow_mut();
         sh.n_spi += 1;
         sh.last_cmd = mosi.first().copied().unwrap_or(0);
+        sh.last_mosi = mosi[..mosi.len().min(4)].to_vec();
         let n = sh.n_spi;
         if sh.due(FaultKind::Spi, n) {
             sh.chip.log_lost(&mosi, "SPI-FAULT(lost)");
